@@ -1251,6 +1251,12 @@ def main(cmdlineargs) -> Statistics:
                 adapters,
                 adapters2,
             )
+            if args.json is not None and outfiles.uses_path(args.json):
+                # An output file name made from an adapter name ({name})
+                raise CommandLineError(
+                    f"Path {args.json} specified more than once as an output file. "
+                    f"This is not supported at the moment."
+                )
             logger.info(
                 "Processing %s reads on %d core%s ...",
                 {False: "single-end", True: "paired-end"}[pipeline.paired],
